@@ -277,6 +277,9 @@ Definition run_model (fs : list bytes) : bytes :=
   else if bytes_eqb op (bs "slicefree") then run_slicefree fs
   else if bytes_eqb op (bs "pipe") then run_pipe fs
   else if bytes_eqb op (bs "eager") then run_eager fs
+  (* slicerace n T rounds: a stress family judged by the harness' prop() only (see NOTES.md) *)
+  else if bytes_eqb op (bs "slicerace") then bs "race"
+
   else bs "?".
 
 Definition run (fs : list bytes) : bytes :=
